@@ -1,6 +1,7 @@
 import GrmVerif.Lemmas.TableSpec
 import GrmVerif.Model.Cert
 import GrmVerif.Model.Closure
+import GrmVerif.Model.CloseImpl
 import GrmVerif.Drive.Util
 /-!
 Drivers for C03 (conflict resolution and reporting) and C16 (table/graph views agree).
@@ -159,6 +160,25 @@ def coreReducesOk (G : Grammar) (st : StateD) : Bool :=
   st.coreReduces.all (fun q => reds.contains q) &&
   reds.all (fun p => (st.coreReduces.filter (fun q => rkey G q == rkey G p)).length == 1)
 
+/-- the MODEL of `Itemset::close` (`Model/CloseImpl.lean`) evaluated on every dumped core state, in
+the dumped (= hash map's) key order, against the dumped closed state. By `C16.close_impl_exact` the
+model's answer is the LR(1) closure of the core, so a difference is a closed state that is not the
+closure of its core (and, on a tree where the reference comparison passes, a model that no longer
+describes the code). -/
+def modelCloseFails (G : Grammar) (An : Ref.Analyses) (A : Automaton) : List String :=
+  let N : Nat → Bool := (An.nullable.contains ·)
+  let F : Nat × Nat → Bool := (An.first.contains ·)
+  let U := (Closure.factUniverse G).length
+  (List.range A.nstates).filterMap (fun s =>
+    let core := A.core s
+    let order := CloseImpl.keysOf core
+    match CloseImpl.close G N F core order (order.length + U + 1) with
+    | .done R =>
+      if CloseImpl.sameItems R (A.closed s) then none
+      else some s!"V fail model-of-Itemset::close-differs-from-the-dumped-closed-state state={s}"
+    | .panic => some s!"V fail model-of-Itemset::close-panics-on-the-dumped-core state={s}"
+    | .fuelOut => some s!"V fail model-of-Itemset::close-runs-out-of-fuel-on-the-dumped-core state={s}")
+
 def handle (args : List Nat) : String :=
   match parse args with
   | none => "bad-request"
@@ -185,7 +205,12 @@ def handle (args : List Nat) : String :=
       match A.states[s]? with
       | some st => if coreReducesOk G st then none else some s!"V fail core-reduces state={s}"
       | none => none)
-    let vs := v1 ++ v2 ++ v3 ++ v4
-    "\n".intercalate ([s!"M {modelLine P}", s!"S2 {specLine P}"] ++ (if vs.isEmpty then ["V ok"] else vs))
+    let v5 := match Ref.analyses G with
+      | none => []
+      | some An => modelCloseFails G An A
+    let vs := v1 ++ v2 ++ v3 ++ v4 ++ v5
+    let counts := [s!"C closure_states_vs_reference {A.nstates}", s!"C closure_reference_differs {v3.length}",
+      s!"C closure_states_vs_model_of_close {A.nstates}", s!"C closure_model_of_close_differs {v5.length}"]
+    "\n".intercalate ([s!"M {modelLine P}", s!"S2 {specLine P}"] ++ (if vs.isEmpty then ["V ok"] else vs) ++ counts)
 
 end GrmVerif.Drive.C16
